@@ -555,22 +555,17 @@ def run(rep, pdb, tier):
         # every number the writer prints is delimited: the reader tokenises with split_whitespace()
         rule_s = ("every placeholder of the writer's format strings is separated from the next printed value by white space in the literal text (the same side - after or before - "
                   "in every write!): the reader splits on white space, so a column format without a blank fuses two numbers as soon as one fills its width")
-        writes = sorted([n for n in walk(w["body"]) if n.get("k") == "MethodCall" and n.get("m") in ("write", "writeln") and not any(a.get("m") for a in ancestors(n))], key=_pos)
+        # every lowered format_args! of the writer (write!, writeln!, format!, format_args! ...) carries its template as a byte-string literal
+        writes = sorted([n for n in walk(w["body"]) if n.get("k") == "Lit" and isinstance(n.get("v"), str) and n["v"].startswith("b:") and
+                         (n.get("x") or any(a.get("m") or a.get("x") for a in ancestors(n)))], key=_pos)      # (inside a macro expansion: not a byte string of the user's)
         tmpls, unknown = [], 0
         for n in writes:
-            lits = [c.get("v") for c in walk(n) if c.get("k") == "Lit" and isinstance(c.get("v"), str)]
-            bs = [v for v in lits if v.startswith("b:")]
-            ss = [v for v in lits if v.startswith('"')]
-            if bs:
-                toks = decode_fmt_template(bytes.fromhex(bs[0][2:]))
-                if toks is None:
-                    unknown += 1
-                else:
-                    tmpls.append((n, toks + ([("lit", "\n")] if n.get("m") == "writeln" and not (toks and toks[-1] == ("lit", "\n")) else [])))
-            elif ss:
-                pass       # no placeholder: literal text only
-            else:
+            toks = decode_fmt_template(bytes.fromhex(n["v"][2:]))
+            if toks is None:
                 unknown += 1
+            else:
+                tmpls.append((n, toks))
+        unknown += len([n for n in walk(w["body"]) if n.get("k") == "Lit" and n.get("v") == "?" and any(a.get("m") for a in ancestors(n))])
         bad_w, styles = [], set()
         for n, toks in tmpls:
             phs = [i for i, t in enumerate(toks) if t[0] == "ph"]
@@ -584,7 +579,7 @@ def run(rep, pdb, tier):
             else:
                 styles.add("after" if after else "before")
         oks = bool(tmpls) and not bad_w and not unknown and len(styles) <= 1
-        rep.add("io-separated", rule_s, oks, bad_w[0] if bad_w else w["body"], "write!/writeln! calls: %d, with placeholders: %d, not delimited: %d, template not decoded: %d, styles: %s" % (
+        rep.add("io-separated", rule_s, oks, bad_w[0] if bad_w else w["body"], "format templates: %d, with placeholders: %d, not delimited: %d, template not decoded: %d, styles: %s" % (
             len(writes), len([1 for _, t in tmpls if any(x[0] == "ph" for x in t)]), len(bad_w), unknown, sorted(styles)), where=loc(bad_w[0]) if bad_w else loc(w["body"]))
         # the writer starts from an empty file: a longer earlier output must not survive behind a shorter new one
         creates = [n for n in walk(w["body"]) if n.get("k") == "Call" and strip(n["f"]).get("k") == "Def" and str(n["f"].get("fn", "")).endswith("File::create")]
